@@ -85,8 +85,42 @@ func c10SyncCheck(c *core.Ctx, a *c10Analysis) {
 
 // c10EntryCheck: Visit is called from non-visitor functions only behind an error check.
 func c10EntryCheck(c *core.Ctx, a *c10Analysis) {
-	for _, f := range c.Prog.AllFuncs("parse") {
-		if f.Decl.Body == nil || strings.HasPrefix(f.Decl.Name.Name, "Visit") || strings.HasSuffix(c.Prog.Fset.Position(f.Decl.Pos()).Filename, "_test.go") {
+	// helpers of the visitor: functions whose every static caller in the package is a Visit* method or another such
+	// helper are part of the visit itself (they run on a tree that an entry point has already checked)
+	all := c.Prog.AllFuncs("parse")
+	callers := map[string][]string{}
+	isVisitor := map[string]bool{}
+	for _, f := range all {
+		if strings.HasPrefix(f.Decl.Name.Name, "Visit") {
+			isVisitor[f.Name] = true
+		}
+		for _, g := range c.Prog.StaticCallees(f) {
+			if core.RelOf(g.Pkg.Types) == "parse" {
+				callers[g.Name] = append(callers[g.Name], f.Name)
+			}
+		}
+	}
+	helper := map[string]bool{}
+	for changed := true; changed; {
+		changed = false
+		for _, f := range all {
+			if helper[f.Name] || isVisitor[f.Name] || len(callers[f.Name]) == 0 {
+				continue
+			}
+			only := true
+			for _, cl := range callers[f.Name] {
+				if !isVisitor[cl] && !helper[cl] && cl != f.Name {
+					only = false
+				}
+			}
+			if only {
+				helper[f.Name] = true
+				changed = true
+			}
+		}
+	}
+	for _, f := range all {
+		if f.Decl.Body == nil || strings.HasPrefix(f.Decl.Name.Name, "Visit") || helper[f.Name] || strings.HasSuffix(c.Prog.Fset.Position(f.Decl.Pos()).Filename, "_test.go") {
 			continue
 		}
 		info := f.Pkg.TypesInfo
@@ -326,10 +360,25 @@ func poolSupplies(c *core.Ctx, f *core.Func, get *ast.CallExpr, target types.Typ
 							return true
 						}
 						if k, ok := kv.Key.(*ast.Ident); ok && k.Name == "New" {
-							if fl, ok := kv.Value.(*ast.FuncLit); ok {
+							// the New function: a literal, or a named function of the package
+							var body *ast.BlockStmt
+							switch v := ast.Unparen(kv.Value).(type) {
+							case *ast.FuncLit:
+								body = v.Body
+							case *ast.Ident:
+								if fn, ok := info.ObjectOf(v).(*types.Func); ok {
+									if g := c.Prog.FuncOf(fn); g != nil {
+										body = g.Decl.Body
+									}
+								}
+							}
+							if body != nil {
 								all := true
 								n := 0
-								ast.Inspect(fl.Body, func(r ast.Node) bool {
+								ast.Inspect(body, func(r ast.Node) bool {
+									if _, nested := r.(*ast.FuncLit); nested {
+										return false
+									}
 									if ret, ok := r.(*ast.ReturnStmt); ok && len(ret.Results) == 1 {
 										n++
 										if !types.Identical(info.TypeOf(ret.Results[0]), target) {
